@@ -7,6 +7,7 @@ package main
 
 import (
 	"fmt"
+	"github.com/nyaruka/goflow/excellent"
 	"math"
 	"regexp"
 	"strings"
@@ -174,6 +175,9 @@ func templateMayBeHuge(tpl string) bool {
 	if strings.Contains(tpl, "repeat(") && bigLiteralRE.MatchString(tpl) {
 		return true
 	}
+	if templateHugeByStructure(tpl) {
+		return true
+	}
 	if smallBaseRE.MatchString(tpl) {
 		return false
 	}
@@ -191,4 +195,79 @@ func templateMayBeHuge(tpl string) bool {
 		}
 	}
 	return false
+}
+
+// templateHugeByStructure: the same question answered on the PARSED expressions of the template (goflow's own
+// scanner and parser, under recover): some `base ^ power` with a literal positive power whose exact result has
+// hugeResult digits or more (the digits of a literal base times the power; for a computed base a power of 7+ digits),
+// or some repeat(text, count) with such a product.  Used only after a template tripped the watchdog.
+func templateHugeByStructure(tpl string) (huge bool) {
+	defer func() {
+		if r := recover(); r != nil {
+			huge = false
+		}
+	}()
+	var literal func(e excellent.Expression) (decimal.Decimal, bool)
+	literal = func(e excellent.Expression) (decimal.Decimal, bool) {
+		switch x := e.(type) {
+		case *excellent.Parentheses:
+			return literal(x.Exp)
+		case *excellent.NumberLiteral:
+			return x.Value.Native(), true
+		case *excellent.TextLiteral:
+			return approxNumber(vText(x.Value.Native()))
+		case *excellent.Negation:
+			if d, ok := literal(x.Exp); ok {
+				return d.Neg(), true
+			}
+		}
+		return decimal.Zero, false
+	}
+	check := func(e excellent.Expression) {
+		switch x := e.(type) {
+		case *excellent.Exponent:
+			p, ok := literal(x.Exponent)
+			if !ok || p.Sign() <= 0 {
+				return
+			}
+			if b, ok := literal(x.Expression); ok {
+				// decimal places x power beyond the limit of operators.Exponent: an error value, nothing is computed
+				places, _ := decimal.New(int64(-b.Exponent()), 0).Mul(p).Float64()
+				if b.Exponent() < 0 && places > 100000 {
+					return
+				}
+				if powResultSize(b, p) >= hugeResult {
+					huge = true
+				}
+			} else if p.Cmp(decimal.New(1, 7)) >= 0 {
+				huge = true
+			}
+		case *excellent.FunctionCall:
+			ref, ok := x.Func.(*excellent.ContextReference)
+			if !ok || strings.ToLower(ref.Name) != "repeat" || len(x.Params) != 2 {
+				return
+			}
+			n, ok := literal(x.Params[1])
+			if !ok {
+				return
+			}
+			size := 1.0
+			if t, isText := x.Params[0].(*excellent.TextLiteral); isText {
+				size = float64(len(t.Value.Native()))
+			}
+			cnt, _ := n.Float64()
+			if size*cnt >= hugeResult {
+				huge = true
+			}
+		}
+	}
+	excellent.VisitTemplate(tpl, nil, false, func(tt excellent.XTokenType, token string) error {
+		if tt == excellent.EXPRESSION {
+			if exp, err := excellent.Parse(token, nil); err == nil && exp != nil {
+				exp.Visit(check)
+			}
+		}
+		return nil
+	})
+	return huge
 }
